@@ -118,7 +118,7 @@ type Machine struct {
 	resolver RelationsResolver
 	// List of all the registered state names.
 	stateNames       S
-	stateNamesExport S
+	stateNamesExport atomic.Pointer[S]
 	loopLock         sync.Mutex
 	handlers         []*handler
 	handlersMx       sync.RWMutex
@@ -1893,7 +1893,7 @@ func (m *Machine) verifyStates(states S) error {
 
 	// memorize the state names order
 	m.stateNames = slicesUniq(states)
-	m.stateNamesExport = nil
+	m.stateNamesExport.Store(nil)
 	m.statesVerified.Store(true)
 
 	// tracers
@@ -3188,11 +3188,14 @@ func (m *Machine) StateNames() S {
 	m.schemaMx.RLock()
 	defer m.schemaMx.RUnlock()
 
-	if m.stateNamesExport == nil {
-		m.stateNamesExport = slices.Clone(m.stateNames)
+	// the shared copy is built lazily under a read lock: publish it atomically
+	if p := m.stateNamesExport.Load(); p != nil {
+		return *p
 	}
+	names := slices.Clone(m.stateNames)
+	m.stateNamesExport.Store(&names)
 
-	return m.stateNamesExport
+	return names
 }
 
 // Queue returns a copy of the currently active states.
@@ -3461,7 +3464,7 @@ func (m *Machine) Import(data *Serialized) error {
 
 	// restore ID and state names
 	m.stateNames = data.StateNames
-	m.stateNamesExport = nil
+	m.stateNamesExport.Store(nil)
 	m.statesVerified.Store(true)
 	m.machineTick = data.MachineTick + 1
 
